@@ -101,6 +101,8 @@ type fetchReq struct {
 	IDs   []ReqID  `json:"ids"`
 	Names []string `json:"names"` // fraction names, index k-1 for hint k
 	Arm   bool     `json:"arm"`   // the active fraction's Fetch panics on entry (schedule point "fetch.start")
+	// > 0: the request runs under a deadline; a request that has not ended by then is reported as hung
+	TimeoutMs int `json:"timeout_ms"`
 }
 
 type fetchResp struct {
@@ -108,6 +110,7 @@ type fetchResp struct {
 	Err     string      `json:"err"`
 	Lens    []int       `json:"lens"`
 	LensErr string      `json:"lens_err"`
+	Hung    bool        `json:"hung"` // the request (or the batch loader run) ended only because its deadline passed
 }
 
 type calcReq struct {
@@ -124,6 +127,7 @@ type constsResp struct {
 	IDsPerBlock int `json:"ids_per_block"`
 	MaxFetch    int `json:"max_fetch"`
 	InitChunk   int `json:"init_chunk"`
+	Workers     int `json:"fetch_workers"` // conf.FetchWorkers (default)
 }
 
 const garbage = uint64(999999999)
@@ -216,7 +220,7 @@ func getGrpc(c *storectl.Child) (*storeapi.GrpcV1, error) {
 func registerOps() {
 	storectl.Register("c04consts", func(c *storectl.Child, r storectl.Req) (storectl.Resp, error) {
 		return storectl.Resp{Extra: extra(constsResp{IDsPerBlock: consts.IDsPerBlock, MaxFetch: conf.MaxFetchSizeBytes,
-			InitChunk: storeapi.VerifC04InitChunkSize})}, nil
+			InitChunk: storeapi.VerifC04InitChunkSize, Workers: conf.FetchWorkers})}, nil
 	})
 	storectl.Register("c04bulk", func(c *storectl.Child, r storectl.Req) (storectl.Resp, error) {
 		var br bulkReq
@@ -303,16 +307,28 @@ func registerOps() {
 			}
 		}
 		var resp fetchResp
-		fs := &fakeStream{ctx: context.Background()}
+		reqCtx := func() (context.Context, context.CancelFunc) {
+			if fr.TimeoutMs > 0 {
+				return context.WithTimeout(context.Background(), time.Duration(fr.TimeoutMs)*time.Millisecond)
+			}
+			return context.WithCancel(context.Background())
+		}
+		ctx1, cancel1 := reqCtx()
+		fs := &fakeStream{ctx: ctx1}
 		if err := g.Fetch(req, fs); err != nil {
 			resp.Err = err.Error()
 		}
+		resp.Hung = fr.TimeoutMs > 0 && errors.Is(ctx1.Err(), context.DeadlineExceeded)
+		cancel1()
 		resp.Sent = fs.sent
-		lens, _, lerr := g.VerifC04Batches(context.Background(), src)
+		ctx2, cancel2 := reqCtx()
+		lens, _, lerr := g.VerifC04Batches(ctx2, src)
 		resp.Lens = lens
 		if lerr != nil {
 			resp.LensErr = lerr.Error()
 		}
+		resp.Hung = resp.Hung || (fr.TimeoutMs > 0 && errors.Is(ctx2.Err(), context.DeadlineExceeded))
+		cancel2()
 		return storectl.Resp{Extra: extra(resp)}, nil
 	})
 	storectl.Register("c04calc", func(c *storectl.Child, r storectl.Req) (resp storectl.Resp, err error) {
@@ -443,8 +459,14 @@ func (g *gen) scenario(kind string) Scenario {
 	case "chunked": // several fractions, none empty (the last one active), for requests loaded in several chunks
 		nfr = r.Range(3, 4)
 		lastActive = true
+	case "slots": // several fractions with disjoint time ranges, the last one active, for histories of FetchDocs calls
+		nfr = r.Range(3, 5)
+		lastActive = true
 	}
 	chunkedOverlap := r.Bool()
+	if kind == "slots" {
+		chunkedOverlap = false
+	}
 	if kind == "chunked" {
 		sc.SameRange = chunkedOverlap
 	}
@@ -469,7 +491,7 @@ func (g *gen) scenario(kind string) Scenario {
 			lo = base + uint64(r.Intn(3))*60000
 			hi = lo + uint64(r.Intn(200000))
 		}
-		if kind == "chunked" {
+		if kind == "chunked" || kind == "slots" {
 			if chunkedOverlap {
 				lo = base
 				hi = lo + 60
@@ -490,6 +512,8 @@ func (g *gen) scenario(kind string) Scenario {
 			n = r.Range(60, 160)
 		case "chunked":
 			n = r.Range(15, 50)
+		case "slots":
+			n = r.Range(8, 30)
 		}
 		docs := make([]DocSpec, 0, n)
 		for i := 0; i < n; i++ {
@@ -608,8 +632,10 @@ func (g *gen) absent(f fracView, stored map[[2]uint64]bool) (uint64, uint64) {
 }
 
 type request struct {
-	kind string
-	ids  []ReqID
+	kind      string
+	ids       []ReqID
+	timeoutMs int // > 0: the request runs under this deadline (fetch-after-history)
+	history   any // fetch-after-history: what the store's fetcher served before
 }
 
 func (g *gen) requests(sc Scenario, views []fracView, tier string) []request {
@@ -1136,7 +1162,11 @@ func runScenario(seed uint64, tier string, idx int, kind string, cs constsResp) 
 				class = "fault-damaged-docs"
 			}
 		}
-		resp, ferr := call[fetchResp](st, "c04fetch", fetchReq{IDs: rq.ids, Names: names, Arm: fault.panicActive})
+		if rq.kind == "fetch-after-history" {
+			class = rq.kind
+			input["history"] = rq.history
+		}
+		resp, ferr := call[fetchResp](st, "c04fetch", fetchReq{IDs: rq.ids, Names: names, Arm: fault.panicActive, TimeoutMs: rq.timeoutMs})
 		res := result{class: class, input: input}
 		npres := 0
 		for _, x := range rq.ids {
@@ -1162,6 +1192,15 @@ func runScenario(seed uint64, tier string, idx int, kind string, cs constsResp) 
 			res.nontrivial = true
 			out.results = append(out.results, res)
 			return true, nil // the scenario's store is gone
+		}
+		if resp.Hung {
+			// the request ended only because its deadline passed: it did not terminate by itself
+			res.coq = fmt.Sprintf("%s\n   %s\n   SFuel None", ctor, coqIDs(rq.ids))
+			res.impl = map[string]any{"hung": fmt.Sprintf("the request did not end within %d ms", rq.timeoutMs), "err": resp.Err,
+				"blocks": len(resp.Sent), "batch_lens": resp.Lens, "batches_err": resp.LensErr}
+			res.nontrivial = true
+			out.results = append(out.results, res)
+			return true, nil // the store's fetcher has no free worker slot any more
 		}
 		status := "SOk"
 		if resp.Err != "" {
@@ -1198,6 +1237,46 @@ func runScenario(seed uint64, tier string, idx int, kind string, cs constsResp) 
 		}
 		out.results = append(out.results, res)
 		return false, nil
+	}
+	if sc.Kind == "slots" {
+		reopen := func(pre func() error) error {
+			st.Close()
+			if pre != nil {
+				if err := pre(); err != nil {
+					return err
+				}
+			}
+			if st, err = storectl.Start(""); err != nil {
+				return err
+			}
+			st.Timeout = 180 * time.Second
+			if err := open(); err != nil {
+				return fmt.Errorf("reopen: %w", err)
+			}
+			for _, f := range sc.Fracs {
+				for _, b := range f.Bulks {
+					if _, err := call[struct{}](st, "c04bulk", bulkReq{Docs: b, RegisterOnly: true}); err != nil {
+						return err
+					}
+				}
+			}
+			return nil
+		}
+		damage := func(k int) error {
+			matches, _ := filepath.Glob(filepath.Join(data, views[k].info.Name+".*docs"))
+			if len(matches) != 1 {
+				return fmt.Errorf("harness: docs file of %s: %v", views[k].info.Name, matches)
+			}
+			return os.Truncate(matches[0], 7)
+		}
+		herr := runSlots(g, sc, idx, seed, tier, cs, cfg, views, sums, func() *storectl.Store { return st }, reopen, damage, &out,
+			func(ri int, rq request, pa bool, dmg []int) (bool, error) {
+				return runReq(ri, rq, faultSpec{panicActive: pa, damaged: dmg})
+			})
+		if herr != nil {
+			return scenarioOut{err: herr}
+		}
+		return out
 	}
 	reqs := g.requests(sc, views, tier)
 	for ri, rq := range reqs {
@@ -1381,6 +1460,7 @@ func runCalc(w *cwriter, seed uint64, tier string, cs constsResp) error {
 
 func main() {
 	registerOps()
+	registerSlotOps()
 	storectl.MaybeChild()
 	seed := flag.Uint64("seed", 1, "")
 	tier := flag.String("tier", "quick", "")
@@ -1460,11 +1540,24 @@ func main() {
 	for i := 0; i < nchunked; i++ {
 		kinds = append(kinds, "chunked")
 	}
+	nslots := 4
+	if *tier == "thorough" {
+		nslots = 24
+	}
+	for i := 0; i < nslots; i++ {
+		kinds = append(kinds, "slots")
+	}
+	// HC04_ONLY=slots|units|dc: run only the Fetcher histories / the unit-level classes / the docs cache class
+	// (aid for mutation testing; the check never sets it)
+	onlyEnv := os.Getenv("HC04_ONLY")
 	outs := make([]scenarioOut, len(kinds))
 	var wg sync.WaitGroup
-	sem := make(chan struct{}, 5)
+	sem := make(chan struct{}, 4)
 	for i, kind := range kinds {
 		if only >= 0 && i != only {
+			continue
+		}
+		if onlyEnv != "" && !(onlyEnv == "slots" && kind == "slots") {
 			continue
 		}
 		wg.Add(1)
@@ -1481,6 +1574,9 @@ func main() {
 			fmt.Fprintf(os.Stderr, "hC04: scenario %d (%s): %v\n", i, kinds[i], o.err)
 			os.Exit(3)
 		}
+		if len(o.results) == 0 {
+			continue
+		}
 		for range o.results {
 			w.Count("scenario:" + kinds[i])
 		}
@@ -1488,7 +1584,13 @@ func main() {
 			panic(err)
 		}
 	}
-	if only < 0 {
+	if only < 0 && (onlyEnv == "" || onlyEnv == "dc") {
+		if err := runDocsCache(w, *seed, *tier); err != nil {
+			fmt.Fprintln(os.Stderr, "hC04: docs cache:", err)
+			os.Exit(3)
+		}
+	}
+	if only < 0 && (onlyEnv == "" || onlyEnv == "units") {
 		if err := runCalc(w, *seed, *tier, cs); err != nil {
 			fmt.Fprintln(os.Stderr, "hC04: calc:", err)
 			os.Exit(3)
